@@ -25,7 +25,7 @@ def run_one(k, m):
         if text.count(m["old"]) != 1:
             return k, m, "BAD-MUTANT", f"pattern occurs {text.count(m['old'])} times"
         open(path, "w").write(text.replace(m["old"], m["new"]))
-        env = dict(os.environ, VERIF_REPO=d, VERIF_TMP=d)
+        env = dict(os.environ, VERIF_REPO=d, VERIF_TMP=d, VERIF_OUT=d)
         pr = subprocess.run(["./check", m["prop"], "--tier", "quick"], cwd=ROOT, env=env, capture_output=True, text=True, timeout=1800)
         want = 1 if m.get("expect", "caught") == "caught" else 0
         status = "ok" if pr.returncode == want else "MISSED" if want == 1 else "FALSE-ALARM"
